@@ -579,6 +579,34 @@ class Evaluator:
         self._cache[key] = res
         return res
 
+    _BUILT = {"dict": "dict", "dictcomp": "dict", "list": "list", "seqcomp": None, "tuple": "tuple", "set": "set",
+              "setcomp": "set", "str": "str", "fstr": "str"}
+
+    def _isinstance_known(self, x, types):
+        """True / False when x is a literal or a freshly built container and `types` names builtin container types; else None"""
+        c = self.ctx
+        h = c.head_of(x)
+        kind = None
+        if h and h[0] in self._BUILT:
+            kind = self._BUILT[h[0]]
+        elif h and h[0] == "call" and h[1] in ("dict", "list", "tuple", "set", "str") and len(h) > 3 and not h[3]:
+            kind = h[1]
+        if kind is None:
+            return None
+        names = []
+        for t_ in (c.args_of(types) if (c.head_of(types) or ("",))[0] == "tuple" else [types]):
+            ht = c.head_of(t_)
+            if not (ht and ht[0] == "sym" and ht[1] in ("dict", "list", "tuple", "set", "str", "int", "float", "bool", "complex")):
+                return None
+            names.append(ht[1])
+        return kind in names
+
+    def _isinstance_of(self, x, types):
+        known = self._isinstance_known(x, types)
+        if known is not None:
+            return self.ctx.mk(("const", known))
+        return self.ctx.mk(("call", "isinstance", 2, ()), (x, types))
+
     def _test_term(self, test):
         owner = None
         for n in self.cfg.nodes:
@@ -714,6 +742,19 @@ class Evaluator:
                 merged.append((g, t))
         if len(merged) == 1:
             return merged[0][1]
+        # conjuncts shared by every gate say where the value exists at all, not which alternative it is: dropped
+        # (`x = a if c else b` and `if c: x = a else: x = b` under a guard are one value)
+        def conj(g):
+            hg = c.head_of(g)
+            return list(c.args_of(g)) if hg and hg[0] == "and" else [g]
+        sets = [conj(g) for g, _ in merged]
+        common = [x for x in sets[0] if all(any(c.eq(x, y) for y in s_) for s_ in sets[1:])]
+        if common:
+            stripped = []
+            for (g, t), s_ in zip(merged, sets):
+                rest = [x for x in s_ if not any(c.eq(x, y) for y in common)]
+                stripped.append((self._bool("and", rest) if rest else c.mk(("const", True)), t))
+            merged = stripped
         merged.sort(key=lambda gt: (gt[1].key(), gt[0].key()))
         flat = []
         for g, t in merged:
@@ -797,7 +838,8 @@ class Evaluator:
                             v = v.elts[p.pop(0)]
                         val = self._project(self._t(v, node, restrict), p)
                         idx = self._index(target.slice, node, restrict)
-                        cur = self.ctx.mk(("store",), (cur, idx, val))
+                        rep = self._replaced_element(cur, idx, val) if self.exact else None
+                        cur = rep if rep is not None else self.ctx.mk(("store",), (cur, idx, val))
                     elif how == "augitem":
                         st = payload
                         idx = self._index(st.target.slice, node, restrict)
@@ -892,7 +934,7 @@ class Evaluator:
             if fname == "enumerate" and isinstance(path[0], int) and len(args) >= 1:
                 k = path.pop(0)
                 if k == 0:
-                    res = self.ctx.mk(("index",), (args[0],))
+                    res = self.ctx.mk(("index",), (self._loop_base(args[0]) if self.exact else args[0],))
                     return self._project_iter(res, path)
                 return self._project_iter(self._each(args[0]), path)
             break
@@ -907,8 +949,34 @@ class Evaluator:
                 return ar[0]
         return self.ctx.mk(("iter", ()), (it,))
 
+    def _loop_base(self, it):
+        """what a loop really runs over: enumerate(X), zip(X, derived-from-X ...) and [g(x) for x in X] (no filter) have one
+        round per element of X, in the order of X (the loop variables are terms over the element of X already)"""
+        c = self.ctx
+        for _ in range(8):
+            h = c.head_of(it)
+            if h and h[0] == "call" and h[1] == ".keys" and len(c.args_of(it)) == 1 and not (len(h) > 3 and h[3]):
+                it = c.args_of(it)[0]
+                continue
+            if h and h[0] == "call" and h[1] == "enumerate" and len(c.args_of(it)) == 1 and not (len(h) > 3 and h[3]):
+                it = c.args_of(it)[0]
+                continue
+            if h and h[0] == "seqcomp" and h[1] == 1 and c.head_of(c.args_of(it)[1]) == ("gen", 0):
+                it = c.args_of(c.args_of(it)[1])[0]
+                continue
+            b = self._zip_base(it)
+            if b is it or c.eq(b, it):
+                break
+            it = b
+        return it
+
     def _project_iter(self, res, path):
         for p in path:
+            h = self.ctx.head_of(res)
+            if h and h[0] in ("tuple", "list") and isinstance(p, int) and 0 <= p < len(self.ctx.args_of(res)) and \
+                    not any((self.ctx.head_of(x) or ("",))[0] == "star" for x in self.ctx.args_of(res)):
+                res = self.ctx.args_of(res)[p]
+                continue
             res = self.ctx.mk(("unpack", p), (res,))
         self._type_elem(res)
         return res
@@ -1005,9 +1073,9 @@ class Evaluator:
         if isinstance(e, ast.Subscript):
             return self._subscript(T(e.value), self._index(e.slice, at, R))
         if isinstance(e, ast.Tuple):
-            return c.mk(("tuple",), [T(x) for x in e.elts])
+            return c.mk(("tuple",), self._splice([T(x) for x in e.elts]))
         if isinstance(e, ast.List):
-            return c.mk(("list",), [T(x) for x in e.elts])
+            return c.mk(("list",), self._splice([T(x) for x in e.elts]))
         if isinstance(e, ast.Set):
             return c.mk(("set",), sorted((T(x) for x in e.elts), key=lambda r: r.key()))
         if isinstance(e, ast.Dict):
@@ -1093,7 +1161,7 @@ class Evaluator:
                 env[name] = ev._iter_elem(it, path)
             ev = ev.with_bound(env)
             conds = [ev._t(x, at, R) for x in g.ifs]
-            gens.append(c.mk(("gen", len(conds)), [self._zip_base(it)] + conds))
+            gens.append(c.mk(("gen", len(conds)), [self._loop_base(it) if self.exact else self._zip_base(it)] + conds))
         if isinstance(e, ast.DictComp):
             elt = c.mk(("item",), (ev._t(e.key, at, R), ev._t(e.value, at, R)))
             kind = "dictcomp"
@@ -1136,7 +1204,7 @@ class Evaluator:
             parts = [self._t(x, at, R) if x is not None else none for x in (s.lower, s.upper, s.step)]
             return c.mk(("slice",), parts)
         if isinstance(s, ast.Tuple):
-            return c.mk(("tuple",), [self._index2(x, at, R) for x in s.elts])
+            return c.mk(("tuple",), self._splice([self._index2(x, at, R) for x in s.elts]))
         if isinstance(s, ast.Starred):
             return c.mk(("star",), (self._t(s.value, at, R),))
         return self._t(s, at, R)
@@ -1151,6 +1219,41 @@ class Evaluator:
             if -len(args) <= k < len(args) and not any((c.head_of(a) or ("",))[0] == "star" for a in args):
                 return args[int(k)]
         return c.mk(("sub",), (base, idx))
+
+    def _replaced_element(self, base, idx, val):
+        """list(X) with element k replaced, for an axis number k (never negative), is [*X[:k], v, *X[k + 1:]]"""
+        c = self.ctx
+        hb = c.head_of(base)
+        if not (hb and hb[0] == "call" and hb[1] == "list" and len(c.args_of(base)) == 1 and not (len(hb) > 3 and hb[3])):
+            return None
+        hi = c.head_of(idx)
+        k = idx.const()
+        nonneg = (k is not None and k >= 0 and k.denominator == 1) or \
+            (hi and hi[0] == "call" and str(hi[1]).endswith("_dim2index"))
+        if not nonneg:
+            return None
+        x = c.args_of(base)[0]
+        none = c.mk(("const", None))
+        lo = c.mk(("sub",), (x, c.mk(("slice",), (none, idx, none))))
+        hi_ = c.mk(("sub",), (x, c.mk(("slice",), (self._binop(ast.Add(), idx, c.const(1)), none, none))))
+        return c.mk(("list",), [c.mk(("star",), (lo,)), val, c.mk(("star",), (hi_,))])
+
+    def _splice(self, elts):
+        """[*[a, b], c] is [a, b, c]"""
+        if not self.exact:
+            return elts
+        c = self.ctx
+        out = []
+        for x in elts:
+            h = c.head_of(x)
+            if h and h[0] == "star":
+                inner = c.args_of(x)[0]
+                hi = c.head_of(inner)
+                if hi and hi[0] in ("tuple", "list"):
+                    out.extend(c.args_of(inner))
+                    continue
+            out.append(x)
+        return out
 
     # ------------------------------------------------------------ operators
     def _binop(self, op, a, b):
@@ -1258,6 +1361,16 @@ class Evaluator:
         if name in ("eq", "ne", "is", "isnot"):
             if a.key() > b.key():
                 a, b = b, a
+        if self.exact and name in ("lt", "le"):
+            # a length is a non-negative integer: len(x) > 0, len(x) >= 1 are len(x) != 0; len(x) < 1, len(x) <= 0 are == 0
+            def is_len(t):
+                h_ = c.head_of(t)
+                return bool(h_) and h_[0] == "call" and h_[1] == "len"
+            ka, kb = a.const(), b.const()
+            if is_len(b) and ka is not None and ((name == "lt" and ka == 0) or (name == "le" and ka == 1)):
+                return self._cmpn("ne", c.const(0), b)
+            if is_len(a) and kb is not None and ((name == "lt" and kb == 1) or (name == "le" and kb == 0)):
+                return self._cmpn("eq", c.const(0), a)
         if self.exact and name in ("in", "notin"):
             # membership in a short literal collection of constants is a disjunction of equalities (x in ["a"] is x == "a")
             hb = c.head_of(b)
@@ -1409,8 +1522,48 @@ class Evaluator:
                 return c.mk(("call", "dyn", len(pos), tuple(k for k, _ in kws)), [fr] + pos + [v for _, v in kws])
         return self._func_call(fname, pos, kws, kwd, star)
 
+    # positional parameters of library functions that are commonly written either way (f(a, 0) / f(a, axis=0))
+    EXT_SIGS = {
+        "np.zeros": ["shape", "dtype"], "np.ones": ["shape", "dtype"], "np.empty": ["shape", "dtype"],
+        "np.full": ["shape", "fill_value", "dtype"], "np.zeros_like": ["a", "dtype"], "np.ones_like": ["a", "dtype"],
+        "np.empty_like": ["prototype", "dtype"], "np.full_like": ["a", "fill_value", "dtype"],
+        "np.array": ["object", "dtype"], "np.asarray": ["a", "dtype"], "np.linspace": ["start", "stop", "num", "endpoint"],
+        "np.allclose": ["a", "b", "rtol", "atol"], "np.isclose": ["a", "b", "rtol", "atol"],
+        "np.sum": ["a", "axis"], "np.mean": ["a", "axis"], "np.cumsum": ["a", "axis"], "np.prod": ["a", "axis"],
+        "np.max": ["a", "axis"], "np.min": ["a", "axis"], "np.any": ["a", "axis"], "np.all": ["a", "axis"],
+        "np.stack": ["arrays", "axis"], "np.concatenate": ["arrays", "axis"], "np.pad": ["array", "pad_width", "mode"],
+        "np.reshape": ["a", "newshape"], "np.transpose": ["a", "axes"], "np.rot90": ["m", "k", "axes"],
+        "np.expand_dims": ["a", "axis"], "np.squeeze": ["a", "axis"], "np.moveaxis": ["a", "source", "destination"],
+        "np.flip": ["m", "axis"], "np.roll": ["a", "shift", "axis"], "np.take": ["a", "indices", "axis"],
+        "np.diff": ["a", "n", "axis"], "np.gradient": None, "np.cross": ["a", "b"], "np.dot": ["a", "b"],
+        "np.linalg.norm": ["x", "ord", "axis"], "np.full_like ": None,
+        ".create_dataset": ["name", "shape", "dtype", "data"], ".sum": ["axis"], ".mean": ["axis"], ".astype": ["dtype"],
+        ".squeeze": ["axis"], ".transpose": None, ".reshape": None, ".max": ["axis"], ".min": ["axis"], ".any": ["axis"],
+        ".all": ["axis"], ".cumsum": ["axis"],
+    }
+
+    def _canon_args(self, names, pos, kws, star=False):
+        """arguments bound to the parameter names (all as keywords): f(a, 0) and f(a, axis=0) are one call"""
+        if not self.exact or star or names is None or any(k == "**" for k, _ in kws) or len(pos) > len(names):
+            return pos, kws
+        if any((self.ctx.head_of(x) or ("",))[0] == "star" for x in pos):
+            return pos, kws
+        bound = [(names[i], p_) for i, p_ in enumerate(pos)]
+        if {k for k, _ in bound} & {k for k, _ in kws}:
+            return pos, kws
+        return [], bound + list(kws)
+
+    def _repo_params(self, fi, skip_first):
+        a = fi.node.args
+        names = [x.arg for x in a.posonlyargs + a.args]
+        return names[1:] if skip_first else names
+
     def _new(self, cls, pos, kws, base=None):
         c = self.ctx
+        if self.exact and cls != "?":
+            init = self.repo.resolve_method(cls, "__init__")
+            if init is not None:
+                pos, kws = self._canon_args(self._repo_params(init, True), pos, kws)
         kws = sorted(kws, key=lambda kv: kv[0])
         return c.mk(("new", cls, tuple(k for k, _ in kws)), pos + [v for _, v in kws], cls if cls != "?" else None)
 
@@ -1494,6 +1647,21 @@ class Evaluator:
             return self._new(CLASS_OF[fname[3:]], pos, kws)
         if fname.startswith("cls:"):
             return self._new(fname[4:], pos, kws)
+        if self.exact and fname in ("tuple", "list") and len(pos) == 1 and not star and not kws and \
+                (c.head_of(pos[0]) or ("",))[0] in ("tuple", "list"):
+            return c.mk((fname,), list(c.args_of(pos[0])))        # tuple([a, b]) is (a, b)
+        if fname == "len" and len(pos) == 1 and not star and not kws and self.exact and \
+                (c.head_of(pos[0]) or ("",))[0] == "seqcomp":
+            pos = [self._loop_base(pos[0])]
+        if self.exact and len(pos) >= 1 and not star and fname in ("list", "sorted", "tuple", "set", "len", "enumerate", "frozenset"):
+            # iterating a mapping is iterating its keys; its views have its length
+            h0 = c.head_of(pos[0])
+            if h0 and h0[0] == "call" and len(c.args_of(pos[0])) == 1 and not (len(h0) > 3 and h0[3]) and \
+                    (h0[1] == ".keys" or (fname == "len" and h0[1] in (".values", ".items"))):
+                pos = [c.args_of(pos[0])[0]] + pos[1:]
+        if fname == "len" and len(pos) == 1 and not star and not kws and self.exact:
+            # a comprehension without filter has as many elements as what it runs over
+            pos = [self._loop_base(pos[0])] if (c.head_of(pos[0]) or ("",))[0] == "seqcomp" else pos
         if fname == "isinstance" and len(pos) == 2 and not star and not kws:
             # the order of the accepted types is immaterial: canonical order
             h2 = c.head_of(pos[1])
@@ -1504,6 +1672,20 @@ class Evaluator:
                     if not any(c.eq(x, u) for u in uniq):
                         uniq.append(x)
                 pos = [pos[0], c.mk(h2, uniq) if len(h2) == 1 else pos[1]]
+            if self.exact:
+                # the type of a literal / freshly built container is known; over gated alternatives the test is decided
+                # per alternative
+                h1 = c.head_of(pos[0])
+                if h1 and h1[0] == "gphi":
+                    ar = c.args_of(pos[0])
+                    tests = []
+                    for i in range(0, len(ar), 2):
+                        sub = self._isinstance_of(ar[i + 1], pos[1])
+                        tests.append(self._bool("and", [ar[i], sub]))
+                    return self._bool("or", tests)
+                known = self._isinstance_known(pos[0], pos[1])
+                if known is not None:
+                    return c.mk(("const", known))
         if not star and not kws:
             if fname in ARITH_FUNCS and len(pos) in (1, 2) and self.exact:
                 op = ARITH_FUNCS[fname]
@@ -1548,6 +1730,7 @@ class Evaluator:
             if dt is None or self._is_float_dtype(dt):
                 return pos[0]
             return c.mk(("call", "astype", 2, ()), (pos[0], dt))
+        pos, kws = self._canon_args(self.EXT_SIGS.get(fname), pos, kws, star)
         kws = sorted(kws, key=lambda kv: kv[0])
         return c.mk(("call", fname, len(pos), tuple(k for k, _ in kws)), pos + [v for _, v in kws])
 
@@ -1588,9 +1771,12 @@ class Evaluator:
                     return res
             # classmethod-style constructor via self.__class__ handled in _call; here ordinary methods
             ret = METHOD_RET.get((typ, m))
+            if mi is not None and mi.kind in ("method", "classmethod", "staticmethod"):
+                pos, kws = self._canon_args(self._repo_params(mi, mi.kind != "staticmethod"), pos, kws, star)
             kws2 = sorted(kws, key=lambda kv: kv[0])
             return c.mk(("call", f"{typ.split('.')[-1]}.{m}", len(pos) + 1, tuple(k for k, _ in kws2)),
                         [recv] + pos + [v for _, v in kws2], ret)
+        pos, kws = self._canon_args(self.EXT_SIGS.get(f".{m}"), pos, kws, star)
         kws2 = sorted(kws, key=lambda kv: kv[0])
         return c.mk(("call", f".{m}", len(pos) + 1, tuple(k for k, _ in kws2)), [recv] + pos + [v for _, v in kws2])
 
